@@ -296,6 +296,64 @@ def render(case: t.Any) -> t.Any:
     return r
 
 
+# ---- named tuples as typed values --------------------------------------------------------------------------------------------
+#
+# A named-tuple value whose slots hold typed values that are not interchange data themselves (Fraction, date) is a fixed point of
+# convert for its class, for a subclass that only adds behaviour, and inside containers.
+
+_NTC: t.Dict[str, t.Any] = {}
+
+
+def nt_cases(shard: int, nshards: int) -> t.Iterator[t.Any]:
+    i = 0
+    for cls in ('Share', 'ShareSub', 'Coord'):
+        for where in ('bare', 'List', 'Dict-value', 'field', 'Optional'):
+            for vi in range(3):
+                if i % nshards == shard:
+                    yield [cls, where, vi]
+                i += 1
+
+
+def check_namedtuple(case: t.Any, ctx: Ctx) -> None:
+    import pane
+    import datetime
+    import fractions
+    if not _NTC:
+        _NTC['Share'] = t.NamedTuple('Share', [('owner', str), ('part', fractions.Fraction), ('since', datetime.date)])
+        _NTC['ShareSub'] = type('ShareSub', (_NTC['Share'],), {'__slots__': (), 'label': lambda self: f"{self.owner}: {self.part}"})
+        _NTC['Coord'] = t.NamedTuple('Coord', [('x', float), ('tags', t.FrozenSet[str])])
+    (cname, where, vi) = case
+    cls = _NTC[cname]
+    if cname == 'Coord':
+        x = [cls(1.5, frozenset({'a'})), cls(-0.0, frozenset()), cls(2.0, frozenset({'p', 'q'}))][vi]
+    else:
+        x = [cls('ann', fractions.Fraction(1, 3), datetime.date(2020, 5, 17)), cls('', fractions.Fraction(7), datetime.date(1, 1, 1)),
+             cls('é', fractions.Fraction(-5, 2), datetime.date(9999, 12, 31))][vi]
+    ctx.label(f"nt:{cname}", where)
+    ctx.nontrivial(True)
+    if where == 'bare':
+        (T, v, get) = (cls, x, lambda r: r)
+    elif where == 'List':
+        (T, v, get) = (t.List[cls], [x], lambda r: r[0])
+    elif where == 'Dict-value':
+        (T, v, get) = (t.Dict[str, cls], {'k': x}, lambda r: r['k'])
+    elif where == 'Optional':
+        (T, v, get) = (t.Optional[cls], x, lambda r: r)
+    else:
+        if ('H', cname) not in _NTC:
+            _NTC[('H', cname)] = type('NtHolder', (pane.PaneBase,), {'__annotations__': {'p': cls}})
+        H = _NTC[('H', cname)]
+        (T, v, get) = (H, H.make_unchecked(p=x), lambda r: r.p)
+    ctx.evaluated()
+    (k, r) = outcome(lambda: pane.convert(v, T))
+    if k != 'ok':
+        ctx.fail('convert-fixed-point', 'namedtuple:refused', f"convert of {short(x, 100)} as {cname} ({where}) raised {type(r).__name__}: {str(r)[:200]}")
+        return
+    y = get(r)
+    if type(y) is not cls or tuple(y) != tuple(x) or any(type(a) is not type(b) for (a, b) in zip(y, x)):
+        ctx.fail('convert-fixed-point', 'namedtuple', f"convert of {short(x, 100)} as {cname} ({where}) gave {short(y, 100)} (slot types {[type(a).__name__ for a in y] if isinstance(y, tuple) else type(y).__name__})")
+
+
 def suites(tier: str) -> t.List[Suite]:
     big = tier == 'thorough'
     leaves = 8 if big else 4
@@ -307,5 +365,6 @@ def suites(tier: str) -> t.List[Suite]:
         Suite('pattern-flags', check_pattern, strategy=pattern_cases, examples=400 if big else 40, budget_s=60 if big else 10,
               render=lambda c: {'pattern': c[0], 'flags': c[1], 'where': c[2]}),
         Suite('overlap-unions', check, strategy=lambda: cases(gen.overlap_union_specs()), examples=4000 if big else 450, budget_s=300 if big else 30, render=render),
+        Suite('namedtuple', check_namedtuple, cases=nt_cases, exhaustive=True, budget_s=30, render=lambda c: {'class': c[0], 'where': c[1], 'value': c[2]}),
         Suite('range', check_range, strategy=range_cases, examples=300 if big else 40, budget_s=60),
     ]
